@@ -227,7 +227,18 @@ func guardRows(w *World, r *Report, prop string) {
 			ok, why := e.checkRow(f, sc, row)
 			if !ok {
 				okAll = false
-				if len(e.undecidedOnSubject) > 0 {
+				// second pass: would the scenario fail if every test of the argument that the
+				// oracle cannot evaluate rejected it?  If a success return stays reachable,
+				// some path validates nothing.
+				tests := uniqStrings(e.undecidedOnSubject)
+				rejects := false
+				if len(tests) > 0 {
+					e.assumeReject = true
+					rejects, _ = e.checkRow(f, sc, row)
+					e.assumeReject = false
+				}
+				e.undecidedOnSubject = tests
+				if rejects {
 					// a test of the argument lies on the way that the oracle cannot evaluate:
 					// the exclusion may be enforced in a form the analysis does not interpret
 					r.add("GUARD", key, pos, Undecided, fmt.Sprintf("scenario {%s}: %s, but only past test(s) of the argument the analysis could not evaluate (%s) -- %s", sc, why, abbrev(strings.Join(uniqStrings(e.undecidedOnSubject), "; "), 240), row.Doc))
